@@ -72,23 +72,42 @@ func (C02) Generate(seed uint64, tier string) *core.Scenario {
 // yieldingStore parks the calling task before each ChunkStore operation that matters for the CAS.
 type yieldingStore struct {
 	chunks.ChunkStore
-	s *core.Sched
+	s     *core.Sched
+	noPut bool // do not park before Put (value-layer harnesses: a commit flushes many chunks)
+	// quietAfterCommit: after a successful Commit the task stops yielding until the harness clears
+	// Task.Quiet, so that the value layer's re-read of what it just installed is atomic with it
+	quietAfterCommit bool
+	noYield          bool // never park (procs mode: the file-operation seams do the interleaving)
 }
 
 func (y yieldingStore) Root(ctx context.Context) (hash.Hash, error) {
-	y.s.YieldHere("cs.Root")
+	if !y.noYield {
+		y.s.YieldHere("cs.Root")
+	}
 	return y.ChunkStore.Root(ctx)
 }
 func (y yieldingStore) Rebase(ctx context.Context) error {
-	y.s.YieldHere("cs.Rebase")
+	if !y.noYield {
+		y.s.YieldHere("cs.Rebase")
+	}
 	return y.ChunkStore.Rebase(ctx)
 }
 func (y yieldingStore) Commit(ctx context.Context, cur, last hash.Hash) (bool, error) {
-	y.s.YieldHere("cs.Commit")
-	return y.ChunkStore.Commit(ctx, cur, last)
+	if !y.noYield {
+		y.s.YieldHere("cs.Commit")
+	}
+	ok, err := y.ChunkStore.Commit(ctx, cur, last)
+	if ok && err == nil && y.quietAfterCommit && cur != last {
+		if t := y.s.Current(); t != nil {
+			t.Quiet = true
+		}
+	}
+	return ok, err
 }
 func (y yieldingStore) Put(ctx context.Context, c chunks.Chunk, ga chunks.InsertAddrsCurry) error {
-	y.s.YieldHere("cs.Put")
+	if !y.noPut && !y.noYield {
+		y.s.YieldHere("cs.Put")
+	}
 	return y.ChunkStore.Put(ctx, c, ga)
 }
 
@@ -205,7 +224,7 @@ func (C02) Execute(t *testing.T, sc *core.Scenario) *core.Result {
 			var cs chunks.ChunkStore
 			if b.Mode == "shared" {
 				st = shared
-				cs = yieldingStore{st, s}
+				cs = yieldingStore{ChunkStore: st, s: s}
 			} else {
 				sos.SetActor(id + 1)
 				var err error
